@@ -558,6 +558,12 @@ func (r *RIB) addEntryInternal(ni string, op *spb.AFTOperation, oks, fails *[]*O
 
 	switch {
 	case opErr != nil:
+		// A failure is the terminal result for this operation: if it had been
+		// pending it must not remain so (it would be reported as failed again
+		// by every subsequent install), and it must not be retried by a caller
+		// further up the stack that still has it in its list of candidates.
+		installStack[op.GetId()] = true
+		r.rmPending(op.GetId())
 		verifTrace("try", op.GetId(), "failed")
 		*fails = append(*fails, &OpResult{
 			ID:    op.GetId(),
